@@ -6,6 +6,7 @@ package main
 
 import (
 	"fmt"
+	"math/rand"
 	"strings"
 )
 
@@ -18,6 +19,9 @@ func genRem(g *Gen) {
 		genRemHistory(g, h)
 		if h%6 == 5 {
 			genRemMixed(g)
+		}
+		if h%6 == 2 {
+			genRemTwoStep(g, h)
 		}
 	}
 	if !g.Quick() {
@@ -301,6 +305,146 @@ func genRemBigReorg(g *Gen) {
 	op("wallets", "wallets")
 	op("q-bal", "bal W1 1")
 	g.Stats["reorg-below-first-step-between-steps"]++
+}
+
+// genRemTwoStep: SMALL histories in which the removal needs more than one database transaction, with the wallet
+// ROLLED BACK to a random earlier block BETWEEN the steps (below or above the first step's tip) - the domain of
+// defect D45, which the interleaving theorems do not cover in general.  20000 credits are out of reach of the quick
+// tier; the other way out of removeRelevantCredit's loop is its two-heights break: a coinbase of the removed wallet
+// (paying only that wallet) is mined at TWO heights, the scan deletes its credits at the first height and stops at the
+// second.  (Such a chain is not consensus-valid; nothing else in the history depends on it: the survivor is paid by
+// ordinary coinbases only, so its specification columns apply.)  The wallet is rolled back by the notification of an
+// old block of the same chain (the node never detaches: its database cannot delete a block that spends a transaction
+// whose second occurrence was deleted before) and catches up with the next notification.
+// Own random source: the rest of the stream is the same with and without these histories.
+func genRemTwoStep(g *Gen, idx int) {
+	r := rand.New(rand.NewSource(g.Seed*7919 + int64(idx)*31 + 5))
+	g.Reset()
+	op := g.Op
+	op("params", "params 4 3")
+	op("wallet", "wallet W1")
+	op("addr", "addr W1 A1 std")
+	op("wallet", "wallet W2")
+	op("addr", "addr W2 A2 std")
+	seq := 0
+	next := func() int { seq++; return seq }
+	tip := "G"
+	var chain []string
+	mine := func(cb string, txs ...string) string {
+		b := fmt.Sprintf("B%d", len(chain))
+		op("block", "block %s %s %s", b, tip, strings.Join(append([]string{cb}, txs...), ";"))
+		op("submit", "submit %s", b)
+		op("notify", "notify %s", b)
+		tip = b
+		chain = append(chain, b)
+		return b
+	}
+	filler := func() string {
+		c := fmt.Sprintf("C%d", next())
+		op("tx", "tx %s %d cb X1:500", c, seq)
+		return c
+	}
+	mine(filler())
+	// K: ordinary coinbase paying both wallets; D, E: coinbases paying only W2 (each may be mined a second time)
+	op("tx", "tx K %d cb A2:1000;A1:1000;A2:1000", next())
+	op("tx", "tx D %d cb A2:1000;A2:1000", next())
+	op("tx", "tx E %d cb A2:1000;A2:1000", next())
+	order := [][]string{{"K", "D", "E"}, {"D", "K", "E"}, {"D", "E", "K"}, {"E", "D", "K"}}[r.Intn(4)]
+	for _, c := range order {
+		mine(c)
+	}
+	for i := 0; i < 4; i++ {
+		mine(filler())
+	}
+	// spenders: each takes one or two of the six matured coins; outputs to strangers / the survivor / the removed wallet
+	coins := []string{"K:0", "K:1", "K:2", "D:0", "D:1", "E:0", "E:1"}
+	r.Shuffle(len(coins), func(i, j int) { coins[i], coins[j] = coins[j], coins[i] })
+	var spenders []string
+	for len(coins) > 0 && len(spenders) < 4 {
+		n := 1 + r.Intn(2)
+		if n > len(coins) {
+			n = len(coins)
+		}
+		ins := coins[:n]
+		coins = coins[n:]
+		if r.Intn(5) == 0 {
+			continue // this coin stays unspent
+		}
+		name := fmt.Sprintf("X%d", next())
+		out := []string{"X1", "X1", "A1", "A2"}[r.Intn(4)]
+		op("tx", "tx %s %d %s %s:%d", name, seq, strings.Join(ins, ";"), out, 1000*n-1)
+		spenders = append(spenders, name)
+		if n == 2 {
+			g.Stats["two-step-spender-of-two-coins"]++
+		}
+	}
+	mine(filler(), spenders...)
+	// the second occurrences
+	dup := []string{"D"}
+	switch r.Intn(3) {
+	case 1:
+		dup = []string{"E"}
+	case 2:
+		dup = []string{"D", "E"}
+	}
+	for _, c := range dup {
+		mine(c)
+	}
+	if r.Intn(2) == 0 {
+		mine(filler())
+	}
+	op("q-bal", "bal W1 1")
+	op("dangling-before", "dangling")
+	op("remove", "remove W2 good")
+	op("tasks", "tasks")
+	op("rembegin", "rembegin W2")
+	op("remstep-two", "remstep") // parked: the scan stopped at the second height
+	op("dangling-between", "dangling")
+	if r.Intn(4) == 0 {
+		op("remquit", "remquit")
+		op("restart", "restart")
+		op("inittasks", "inittasks")
+		op("tasks", "tasks")
+		op("rembegin", "rembegin W2")
+		g.Stats["restart-between-removal-steps"]++
+	}
+	// the wallet goes back to a random block of its chain, below or above the blocks of K / D / E and of the spenders
+	back := r.Intn(len(chain) - 1)
+	op("notify-old", "notify %s", chain[back])
+	op("synced", "synced")
+	op("dangling-rolled-back-between-steps", "dangling")
+	if back <= 4 {
+		g.Stats["rollback-below-first-step-between-steps"]++
+	}
+	if r.Intn(3) == 0 {
+		op("remsteps", "remsteps 1") // a step while the wallet is behind
+		op("dangling-between", "dangling")
+	}
+	if r.Intn(2) == 0 {
+		mine(filler()) // catch up through a new block
+	} else {
+		op("notify", "notify %s", tip)
+	}
+	op("synced", "synced")
+	op("dangling-between", "dangling")
+	op("q-bal", "bal W1 1")
+	op("remsteps", "remsteps 6")
+	op("remstep-extra", "remstep")
+	op("dangling-after", "dangling")
+	op("residue-after", "residue W2")
+	op("wallets", "wallets")
+	op("q-bal", "bal W1 1")
+	op("q-utxos", "utxos W1")
+	// later: back again and forward
+	back = r.Intn(len(chain) - 1)
+	op("notify-old", "notify %s", chain[back])
+	op("notify", "notify %s", tip)
+	op("synced", "synced")
+	op("dangling-later", "dangling")
+	op("residue-later", "residue W2")
+	op("q-bal", "bal W1 1")
+	op("q-utxos", "utxos W1")
+	g.Stats["two-step-small"]++
 }
 
 // genRemMixed: transactions with inputs from BOTH the wallet being removed (A) and a survivor (B), in both
